@@ -333,3 +333,11 @@ def d11_7(ctx):
             passed.update({k.arg: k.value for k in sup[0].keywords if k.arg})
             ok = all(f in passed and isinstance(passed[f], ast.Name) and passed[f].id == f for f in fields)
         ctx.check(ok, key, sup[0] if sup else fn, f"{c.name}.build_request hands {fields} on unchanged", f"{c.name}.build_request does not hand {fields} on to the base implementation as received: {[src(a) for a in (sup[0].args if sup else [])]}")
+
+
+# a connected frame is well formed only if its address item carries a connection id the target granted in this session:
+# the guard that runs before every connected operation (C10's D10.2: the operation runs only after a Forward Open succeeded)
+# is an obligation of this property too
+from .C10 import d10_2 as _d10_2  # noqa: E402
+
+rule(P, "D11.8", "T-ABSTRACT-EXEC", floor=4)(_d10_2)
